@@ -6,6 +6,7 @@ import (
 	"sort"
 	"strings"
 	"testing"
+	"time"
 
 	"github.com/godaddy/asherah/go/securememory/memguard"
 	"github.com/godaddy/asherah/go/securememory/protectedmemory"
@@ -62,7 +63,15 @@ func runHistory(t *rapid.T, factory string) {
 			}
 		}
 	}
-	t.Repeat(kit.Weighted(w.Actions(), weights, nil))
+	acts := w.Actions()
+	// another process whose host clock runs two hours ahead rotates the keys: its rows are dated in
+	// our future, and we have to unwrap them like any others
+	acts["rotateFromFastClock"] = func(t *rapid.T) {
+		w.ExtClockAhead = 2 * time.Hour
+		w.ExternalRotate(w.PickPart("part"), rapid.Bool().Draw(t, "newSK"))
+		w.ExtClockAhead = 0
+	}
+	t.Repeat(kit.Weighted(acts, weights, nil))
 	var ps []string
 	for p := range c.paths {
 		ps = append(ps, p)
